@@ -930,7 +930,36 @@ def check_scopes(repo, res, rule_entry, rule_methods):
                 sorted(x or []), gx.oid, ox.oid, sorted(w or []), sorted(y or []))
     _guard(class_body_global_read, res, rule_methods, 'a name declared global in a class body skips the enclosing functions', SCOPE,
            'a read of a name the class body declares global resolves at module level')
-    res.count(rule_entry + '_scenarios', 14, floor=14)
+    def sibling_global_isolated():
+        # x = 0 / def outer(): x = 1; def a(): global x; return x; def b(): return x   -> a reads the module's x, b the closure variable,
+        # in whichever order the two reads are resolved (the tables of sibling scopes must not be one shared object that one of them edits)
+        results = []
+        for order in (('a', 'b', 'a', 'b'), ('b', 'a', 'b')):
+            top, tf, gx, gy = build()
+            outer = m.scope('FuncScope', top, top)
+            of = m.flow('func', outer)
+            outer.attrs['flow'] = of
+            ox = m.name('x', (4, 4))
+            m.add(of, ox)
+            flows = {}
+            for label in ('a', 'b'):
+                sc = m.scope('FuncScope', outer, top)
+                fl = m.flow('func', sc)
+                sc.attrs['flow'] = fl
+                if label == 'a':
+                    sc.attrs['globals'].add('x')
+                flows[label] = fl
+            for i, label in enumerate(order):
+                got = m.describe(m.lookup(m.names_at(flows[label], (8 + i, 8)), 'x'))
+                want = frozenset([gx.oid]) if label == 'a' else frozenset([ox.oid])
+                results.append((order, i, label, got == want, sorted(got or [])))
+        bad = [r for r in results if not r[3]]
+        return not bad, 'two functions nested in one function, the first declares `global x`, both read x: resolved in the order %s, read %d ' \
+            '(in %s) gives %s' % ((bad[0][0], bad[0][1] + 1, bad[0][2], bad[0][4]) if bad else ('', 0, '', ''))
+    _guard(sibling_global_isolated, res, rule_methods, 'a global declaration does not change what a sibling scope reads', SCOPE,
+           'the table a function starts from is its own: a `global` declaration of one nested function must not re-route the name in the '
+           'functions next to it, whichever is resolved first')
+    res.count(rule_entry + '_scenarios', 15, floor=15)
 
 
 def check_name_scope(repo, res, rule):
@@ -1210,7 +1239,11 @@ def lookup_reach_records(repo):
                             if c not in flows or o is None:
                                 continue
                             for k, v in o.attrs.items():
-                                if k in FLOW_STRUCT_ATTRS or not (isinstance(v, (bool, int, str)) or v is None):
+                                if k in FLOW_STRUCT_ATTRS:
+                                    continue
+                                if isinstance(v, (set, frozenset, list, tuple)) and all(isinstance(x, (bool, int, str)) or x is None for x in v):
+                                    v = type(v)(str(x) if isinstance(x, str) else x for x in v)     # a table of names / flags
+                                elif not (isinstance(v, (bool, int, str)) or v is None):
                                     continue
                                 if tok != c and defaults[c].get(k, v) == v:
                                     continue
